@@ -602,12 +602,74 @@ pub fn weight_attack(
     statements: &[RangeStatement<RistrettoPoint>],
     proofs: &[Vec<u8>],
     verify: &dyn Fn(&[Vec<u8>]) -> Vec<bool>,
+    recipe: &serde_json::Value,
 ) -> Vec<String> {
     use rand_core::RngCore;
     let k = proofs.len();
     let mut hits = Vec::new();
     if k < 2 {
         return hits;
+    }
+    // a derivation READ OFF THE MODEL'S RECORDED LOG of the tree under test (smt/props/c08.py::fold_recipe): the members' documented bindings folded
+    // (xor / wrapping sum) into one absorbed value. Its weakness: a proof occurring twice drops out (xor), so the weights do not move when both
+    // copies are changed together. Members k-2 and k-1 must be the same (statement, proof, transcript) for that strategy.
+    if let Some(entries) = recipe["entries"].as_array() {
+        let leak = |s: &str| -> &'static [u8] { Box::leak(s.as_bytes().to_vec().into_boxed_slice()) };
+        let init = leak(recipe["init"].as_str().unwrap_or(""));
+        let labels: Vec<&'static [u8]> = entries.iter().map(|e| leak(e["label"].as_str().unwrap_or(""))).collect();
+        let rec = |ps: &[Vec<u8>]| -> Option<Vec<Scalar>> {
+            let b: Vec<u64> = (0..k).map(|i| final_binding(&transcripts[i], &statements[i], &ps[i])).collect::<Option<Vec<u64>>>()?;
+            let mut wt = Transcript::new(init);
+            for (e, lab) in entries.iter().zip(labels.iter()) {
+                let v: u64 = match e["fold"].as_str() {
+                    Some("xor") => b.iter().fold(0u64, |a, x| a ^ x),
+                    Some("add") => b.iter().fold(0u64, |a, x| a.wrapping_add(*x)),
+                    _ => {
+                        if e["count"].as_bool().unwrap_or(false) {
+                            k as u64
+                        } else {
+                            let h = e["lit"].as_str().unwrap_or("0000000000000000");
+                            let mut le = [0u8; 8];
+                            for (i, c) in (0..h.len().min(16)).step_by(2).enumerate() {
+                                le[i] = u8::from_str_radix(&h[c..c + 2], 16).unwrap_or(0);
+                            }
+                            u64::from_le_bytes(le)
+                        }
+                    },
+                };
+                wt.append_u64(lab, v);
+            }
+            let mut wrng = wt.build_rng().finalize(&mut StuckRng(0));
+            Some((0..k).map(|_| nonzero(&mut wrng)).collect())
+        };
+        let tw = |bytes: &mut Vec<u8>, delta: Scalar| {
+            let mut b = [0u8; 32];
+            b.copy_from_slice(&bytes[1..33]);
+            let s = Option::<Scalar>::from(Scalar::from_canonical_bytes(b)).unwrap() + delta;
+            bytes[1..33].copy_from_slice(s.as_bytes());
+        };
+        if k >= 3 && proofs[k - 1] == proofs[k - 2] {
+            let mut forged: Vec<Vec<u8>> = proofs.to_vec();
+            tw(&mut forged[0], Scalar::ONE);
+            if let Some(w) = rec(&forged) {
+                let d = -(w[0] * (w[k - 1] + w[k - 2]).invert());
+                tw(&mut forged[k - 1], d);
+                tw(&mut forged[k - 2], d);
+                if rec(&forged).as_ref() == Some(&w) && verify(&forged).iter().any(|r| *r) {
+                    hits.push(format!("weights re-derived from the model's recorded log of this tree ({}): a proof submitted twice drops out of the folded seed", recipe));
+                }
+            }
+        }
+        for (a, c) in [(0usize, k - 1), (k - 1, 0usize)] {
+            let mut forged: Vec<Vec<u8>> = proofs.to_vec();
+            tw(&mut forged[a], Scalar::ONE);
+            if let Some(w) = rec(&forged) {
+                tw(&mut forged[c], -(w[a] * w[c].invert()));
+                if rec(&forged).as_ref() == Some(&w) && verify(&forged).iter().any(|r| *r) {
+                    hits.push(format!("weights re-derived from the model's recorded log of this tree ({})", recipe));
+                }
+            }
+        }
     }
     type Recipe<'a> = Box<dyn Fn(&[Vec<u8>]) -> Option<Vec<Scalar>> + 'a>;
     let mut variants: Vec<(String, Recipe)> = Vec::new();
